@@ -130,16 +130,16 @@ func checkCrash(t rep.Fataler, c CrashCase) {
 		}
 	default:
 		seen := map[int]bool{}
-		for _, p := range c.Picks {
-			// half of the kill points come from the shutdown of the run (final
-			// status, compaction, socket removal: the last 16 counted calls), a
-			// quarter from its start-up, the rest from anywhere
-			k := p/4%K + 1
-			switch p % 4 {
-			case 0, 2:
-				k = K - p/4%min(16, K)
-			case 3:
-				k = p/4%min(16, K) + 1
+		for i, p := range c.Picks {
+			// of five kill points per run two come from its shutdown (final status,
+			// compaction, socket removal: the last 20 counted calls), one from its
+			// start-up (the first 16), two from anywhere
+			k := p%K + 1
+			switch i % 5 {
+			case 0, 1:
+				k = K - p%min(20, K)
+			case 2:
+				k = p%min(16, K) + 1
 			}
 			if !seen[k] {
 				seen[k] = true
@@ -303,7 +303,7 @@ func TestCrash(t *testing.T) {
 	}
 	rapid.Check(t, func(t *rapid.T) {
 		c := CrashCase{Shape: rapid.IntRange(0, 2).Draw(t, "shape"), Prior: rapid.Bool().Draw(t, "prior")}
-		for i := 0; i < 3; i++ {
+		for i := 0; i < 5; i++ {
 			c.Picks = append(c.Picks, rapid.IntRange(0, 99999).Draw(t, "pick"))
 		}
 		checkCrash(t, c)
